@@ -67,7 +67,12 @@ def c11_case(draw):
         c['lin'] = []
     c['fam'] = fam
     c['status'] = draw(st.sampled_from(['feasible', 'feasible', 'feasible', 'infeasible', 'unbounded']))
-    if c['status'] == 'infeasible':
+    if c['status'] == 'infeasible' and draw(st.integers(0, 2)) == 0:
+        # a row without any term whose constant cannot hold (all-zero data row with a positive demand): 0 <= -1 / 0 >= 2
+        sense = draw(st.sampled_from(['le', 'ge']))
+        c['lin'].append({'A': [[0.0] * c['n']], 'b': [-1.0 if sense == 'le' else 2.0], 'sense': sense, 'style': 0})
+        c['empty_row'] = True
+    elif c['status'] == 'infeasible':
         row = detmodel._row(draw, c['n'])
         mid = float(np.array(row) @ np.array(c['witness']))
         c['lin'].append({'A': [row], 'b': [mid], 'sense': 'le', 'style': 0})
